@@ -282,6 +282,43 @@ pub fn expand_one(derive: &str, item: &str) -> Exp {
     }
 }
 
+/// `const _: () = { <items> };` wrappers around generated items carry no meaning for the monitors: the items inside are
+/// returned as if they had been emitted at top level (recursively). Anything unparsable is returned unchanged.
+pub fn flatten_anon_consts(t: &str) -> String {
+    use quote::ToTokens;
+    fn go(items: Vec<syn::Item>, out: &mut Vec<syn::Item>) {
+        for it in items {
+            if let syn::Item::Const(c) = &it {
+                if c.ident == "_" {
+                    if let syn::Expr::Block(b) = &*c.expr {
+                        let mut inner = Vec::new();
+                        let mut only_items = true;
+                        for st in &b.block.stmts {
+                            match st {
+                                syn::Stmt::Item(i) => inner.push(i.clone()),
+                                _ => only_items = false,
+                            }
+                        }
+                        if only_items {
+                            go(inner, out);
+                            continue;
+                        }
+                    }
+                }
+            }
+            out.push(it);
+        }
+    }
+    match syn::parse_str::<syn::File>(t) {
+        Ok(f) if f.items.iter().any(|i| matches!(i, syn::Item::Const(c) if c.ident == "_")) => {
+            let mut out = Vec::new();
+            go(f.items, &mut out);
+            out.iter().map(|i| i.to_token_stream().to_string()).collect::<Vec<_>>().join(" ")
+        }
+        _ => t.to_string(),
+    }
+}
+
 fn mode_expand(args: &[String]) {
     let digest_only = args.iter().any(|a| a == "--digest");
     // `--items`: print the expansion as a sorted multiset of top-level items
@@ -307,6 +344,8 @@ fn mode_expand(args: &[String]) {
         };
         let body = match expand_one(derive, &item) {
             Exp::Ok(t) => {
+                // (the digest of C19 is taken over the expansion exactly as emitted)
+                let t = if digest_only { t } else { flatten_anon_consts(&t) };
                 if as_items {
                     use quote::ToTokens;
                     match syn::parse_str::<syn::File>(&t) {
